@@ -13,7 +13,7 @@ EXPLANATION = ('Funnel, comparison-shape, decision-table and control-dependence 
 	'the signed locktime or max(current height, input minimum locktime), i.e. final at broadcast height for untimed inputs; spendable-output events come only from matured '
 	'MaturingOutput entries; on a counterparty commitment an HTLC output is claimed iff (received HTLC) or (offered HTLC with known preimage), with no amount filter, and a preimage learnt '
 	'after the close reaches the claim routines for the counterparty\'s current / previous and the holder\'s current / previous commitment; the reorg boundary and maturity threshold rules '
-	'of C11 are shared. Decides these shapes on all paths; balance conservation, script validity and fee trajectories are not decided.')
+	'of C11 are shared. Also: claims are recorded at the confirmation height of the commitment transaction (pending funding spend and all claim builders); claim requests / watched outputs collected when broadcasting our commitment are returned at every exit. Decides these shapes on all paths; balance conservation, script validity and fee trajectories are not decided.')
 ASSUMPTIONS = ['transaction/script validity and the signer are out of scope', 'fee estimator and broadcaster honour their contracts']
 
 def r07a(F):
